@@ -321,6 +321,14 @@ func init() {
 					}
 					if cl, op, isMu := le.mutexOp(&ci.Call); isMu && cl == "Association.lock" && (op == "Unlock" || op == "RUnlock") {
 						name := c.P.FuncName(fn)
+						if _, known := reviewed[name]; !known {
+							// a private helper of a reviewed function carries that function's review
+							for rn := range reviewed {
+								if rf := c.P.Fn(rn); rf != nil && c.P.OwnedBy(fn, map[*ssa.Function]bool{rf: true}) {
+									name = rn
+								}
+							}
+						}
 						if !found[name] {
 							found[name] = true
 							why, ok := reviewed[name]
